@@ -71,7 +71,10 @@ func (a *Aliases) Delete(name string) error {
 // Dump returns the complete alias table
 func (a *Aliases) Dump() map[string]Alias {
 	a.mutex.Lock()
-	dump := a.aliases
+	dump := make(map[string]Alias, len(a.aliases))
+	for name, alias := range a.aliases {
+		dump[name] = alias
+	}
 	a.mutex.Unlock()
 	return dump
 }
